@@ -11,7 +11,10 @@
 // what the exploration's own successors of that state establish.
 #define VF_MAIN_TU
 #include "strsys.h"
+#include <thread>
+#include <cstdio>
 #include "st_codecs.h"
+#include "st_stdio.h"
 
 struct Attempt {
     std::string name;
@@ -199,6 +202,46 @@ static void build_attempts()
     ATT("t += format(\"{}{}\", t)", vf::EX_OUT_OF_RANGE, TRY(t += ST::format("{}{}", t)));
     ATT("t = format(\"{}{\", t, t)", vf::EX_BADFORMAT, TRY(t = ST::format("{}{", t, t)));
     ATT("t = format(nullptr)", vf::EX_INVALID_ARG, TRY(t = ST::format((const char *)nullptr)));
+    // the sinks of a failing writef / printf call are objects of the caller too: formatting state of the stream and the lock of the
+    // FILE are as they were (the characters already written are not taken back, and are not looked at here)
+    {
+        struct Bad {
+            const char *name;
+            vf::OutKind kind;
+            int which;
+        };
+        static const Bad BADS[5] = {{"\"{\", 1", vf::EX_BADFORMAT, 0}, {"\"{}{}\", 1", vf::EX_OUT_OF_RANGE, 1}, {"\"ab{&3}\", 1, 2", vf::EX_OUT_OF_RANGE, 2},
+                                    {"\"{.1}\", e-acute", vf::EX_UNICODE, 3}, {"\"text {} {x\", 5", vf::EX_BADFORMAT, 4}};
+        for (const Bad &b : BADS) {
+            const int w = b.which;
+            // ({.1} of a two-byte character fails only where the output is validated or transcoded: ST::format and the wide streams)
+            if (w != 3)
+            ATT(std::string("writef(ostream with unitbuf, showbase, hex, width 9, fill '*', precision 3, ") + b.name + ")", b.kind,
+                std::ostringstream os; os << "before"; os.setf(std::ios_base::unitbuf | std::ios_base::showbase | std::ios_base::hex | std::ios_base::left); os.width(9); os.fill('*');
+                os.precision(3); auto f0 = os.flags(); auto x0 = os.exceptions();
+                TRY(w == 0 ? ST::writef(os, "{", 1) : w == 1 ? ST::writef(os, "{}{}", 1) : w == 2 ? ST::writef(os, "ab{&3}", 1, 2) : w == 3 ? ST::writef(os, "{.1}", "\xC3\xA9")
+                                                                                                                                 : ST::writef(os, "text {} {x", 5));
+                if (os.flags() != f0) problem = "the stream's format flags changed during a failed writef";
+                else if (os.width() != 9 || os.fill() != '*' || os.precision() != 3) problem = "the stream's width / fill / precision changed during a failed writef";
+                else if (os.exceptions() != x0 || os.rdstate() != std::ios_base::goodbit) problem = "the stream's state or exception mask changed during a failed writef";
+                else if (os.str().compare(0, 6, "before") != 0) problem = "earlier output of the stream was lost");
+            ATT(std::string("writef(wostream with unitbuf, ") + b.name + ")", b.kind,
+                std::wostringstream os; os.setf(std::ios_base::unitbuf); os.width(4); auto f0 = os.flags();
+                TRY(w == 0 ? ST::writef(os, "{", 1) : w == 1 ? ST::writef(os, "{}{}", 1) : w == 2 ? ST::writef(os, "ab{&3}", 1, 2) : w == 3 ? ST::writef(os, "{.1}", "\xC3\xA9")
+                                                                                                                                 : ST::writef(os, "text {} {x", 5));
+                if (os.flags() != f0 || os.width() != 4 || os.rdstate() != std::ios_base::goodbit) problem = "the wide stream's formatting state changed during a failed writef");
+            if (w != 3)
+            ATT(std::string("printf(FILE*, ") + b.name + ")", b.kind,
+                FILE *f = tmpfile(); if (!f) return std::string();
+                TRY(w == 0 ? ST::printf(f, "{", 1) : w == 1 ? ST::printf(f, "{}{}", 1) : w == 2 ? ST::printf(f, "ab{&3}", 1, 2) : w == 3 ? ST::printf(f, "{.1}", "\xC3\xA9")
+                                                                                                                              : ST::printf(f, "text {} {x", 5));
+                bool free_for_others = false;
+                { vf::Bypass bp; std::thread th([&] { if (ftrylockfile(f) == 0) { free_for_others = true; funlockfile(f); } }); th.join(); }
+                if (!free_for_others) problem = "the FILE is still locked by the failed call: no other thread can use it";
+                else if (ferror(f)) problem = "the FILE's error indicator was set by a call that failed before writing";
+                fclose(f));
+        }
+    }
     // the public numeric formatter objects: a rejected specifier leaves the previously formatted text in place
     ATT("float_formatter<double>.format(v,'q') after a good one", vf::EX_BADFORMAT, ST::float_formatter<double> ff; ff.format(1.5, 'g');
         std::string b4(ff.text(), ff.size()); TRY(ff.format(2.25, 'q')); if (std::string(ff.text(), ff.size()) != b4) problem = "the formatter lost its previous text");
